@@ -261,7 +261,7 @@ fn session(w: &mut World, src: &mut dyn StepSource, trace: &mut Vec<Step>, max_s
                 break;
             }
             exec_step(w, &mut s, &step)?;
-            if w.faulted {
+            if w.faulted && !w.cfg.oracles.crash_log {
                 // after a hard fault: one relaxed structural check, then the run ends
                 end = SessionEnd::Finished;
                 break;
